@@ -1,6 +1,7 @@
 package main
 
 import (
+	"regexp"
 	"fmt"
 	"os"
 	"sort"
@@ -89,6 +90,18 @@ func lineEq(a, b string) bool {
 		return true
 	}
 	return isOtherErr(a) && isOtherErr(b)
+}
+
+var itemKeyRe = regexp.MustCompile(`item:[0-9a-f]*`)
+
+func maskItems(trace string, on bool) string {
+	if !on {
+		return trace
+	}
+	// as a multiset: the order in which tied documents are rewritten is not determined (unstable sort)
+	calls := strings.Fields(itemKeyRe.ReplaceAllString(trace, "item:*"))
+	sort.Strings(calls)
+	return strings.Join(calls, " ")
 }
 
 func sortedCopy(a []string) []string {
@@ -332,6 +345,7 @@ type HistoryOutcome struct {
 type HistOpts struct {
 	Traces    bool
 	DumpEvery bool // compare raw key dumps after every operation
+	MaskItems bool // compare store-call traces as multisets, with the keys of cursor reads masked (the entry a scan stops at depends on whether the cursor sees the transaction's own writes; tied documents are rewritten in any order)
 	SpecOnly  bool // search phase after a broken correspondence: only the property's oracles (specification, invariant on the real store, logical state), not the model
 }
 
@@ -443,7 +457,7 @@ func runHistory(dr *Driver, im *Impl, lines []J, opts HistOpts) HistoryOutcome {
 				out.Index, out.Kind, out.Detail = i, "model", mp
 				return out
 			}
-			if opts.Traces && !opts.SpecOnly && fault < 0 && strings.Join(er.Trace, " ") != kv["trace"] {
+			if opts.Traces && !opts.SpecOnly && fault < 0 && maskItems(strings.Join(er.Trace, " "), opts.MaskItems) != maskItems(kv["trace"], opts.MaskItems) {
 				out.Index, out.Kind, out.Detail = i, "trace", "store-call traces differ: impl ["+strings.Join(er.Trace, " ")+"] model ["+kv["trace"]+"]"
 				return out
 			}
